@@ -390,4 +390,257 @@ theorem cutTri_spec (n : V3 K) (bias eps : K) (he : 0 ≤ eps) (V0 : Array (V3 K
     · intro g hg
       simp only [List.map_cons, List.sum_cons, List.map_nil, List.sum_nil, add_zero]
       rw [i6 g hg, rot_triN sq V0 idx e hie]
+
+theorem set_at_length {α} (D : List α) (t p : α) (R : List α) : (D ++ t :: R).set D.length p = D ++ p :: R := by
+  induction D with
+  | nil => rfl
+  | cons d D ih => simp [ih]
+
+theorem pos_pres {K : Type} [Num K] (V V' : Array (V3 K)) (sz : Nat) (x : Tri) (hx : InRange sz x)
+    (h : ∀ j, j < sz → V'.getD j V3.zero = V.getD j V3.zero) : pos V' x = pos V x := by
+  obtain ⟨h1, h2, h3⟩ := hx
+  simp only [pos, h _ h1, h _ h2, h _ h3]
+
+theorem onesided_pres (C C' : Array Nat) (sz : Nat) (x : Tri) (hx : InRange sz x)
+    (h : ∀ j, j < sz → C'.getD j 0 = C.getD j 0) (ho : OneSided C x) : OneSided C' x := by
+  obtain ⟨h1, h2, h3⟩ := hx
+  simp only [OneSided, h _ h1, h _ h2, h _ h3] at ho ⊢
+  exact ho
+
+theorem inrange_mono (a b : Nat) (x : Tri) (h : InRange a x) (hab : a ≤ b) : InRange b x :=
+  ⟨by have := h.1; omega, by have := h.2.1; omega, by have := h.2.2; omega⟩
+
+theorem cutLoop_spec (n : V3 K) (bias eps : K) (he : 0 ≤ eps) (V0 : Array (V3 K)) (rest : List Tri) :
+    letI := fieldNum K sq
+    ∀ (st : State K) (i : Nat) (D P : List Tri), Inv n bias eps V0 st → st.tris.toList = D ++ rest ++ P → D.length = i →
+      (∀ t ∈ rest, InRange V0.size t) → (∀ t ∈ D ++ P, InRange st.verts.size t ∧ OneSided st.colors t) →
+      ∃ st', cutLoop n bias st i rest = some st' ∧ Inv n bias eps V0 st' ∧
+        (∀ t ∈ st'.tris.toList, InRange st'.verts.size t ∧ OneSided st'.colors t) ∧
+        ∀ g : V3 K → K, Homog g →
+          (st'.tris.toList.map fun t => g (triNT (pos st'.verts t))).sum =
+            ((D ++ P).map fun t => g (triNT (pos st.verts t))).sum + (rest.map fun t => g (triNT (pos V0 t))).sum := by
+  letI : Num K := fieldNum K sq
+  induction rest with
+  | nil =>
+    intro st i D P hI htr hD hr hDP
+    refine ⟨st, rfl, hI, ?_, ?_⟩
+    · intro t ht; rw [htr] at ht; exact hDP t (by simpa using ht)
+    · intro g hg; rw [htr]; simp
+  | cons t rest ih =>
+    intro st i D P hI htr hD hr hDP
+    have htr0 : InRange V0.size t := hr t (by simp)
+    obtain ⟨st1, hcut, hI1, hsz, hpres, hcase⟩ := cutTri_spec sq n bias eps he V0 st i t hI htr0
+    have hposDP : ∀ x ∈ D ++ P, pos st1.verts x = pos st.verts x ∧ InRange st1.verts.size x ∧ OneSided st1.colors x := by
+      intro x hx
+      obtain ⟨h1, h2⟩ := hDP x hx
+      exact ⟨pos_pres _ _ _ x h1 (fun j hj => (hpres j hj).1), inrange_mono _ _ x h1 hsz,
+        onesided_pres _ _ _ x h1 (fun j hj => (hpres j hj).2) h2⟩
+    have hsumDP : ∀ g : V3 K → K, ((D ++ P).map fun t => g (triNT (pos st1.verts t))).sum =
+        ((D ++ P).map fun t => g (triNT (pos st.verts t))).sum := by
+      intro g
+      congr 1
+      apply List.map_congr_left
+      intro x hx; rw [(hposDP x hx).1]
+    simp only [cutLoop, hcut]
+    rcases hcase with ⟨htris, hone⟩ | ⟨p0, ps, htris, hps, hsum⟩
+    · -- the triangle is kept
+      have ht1 : InRange st1.verts.size t := inrange_mono _ _ t htr0 hI1.size_le
+      have hpt : pos st1.verts t = pos V0 t := pos_pres _ _ _ t htr0 (fun j hj => hI1.orig_v j hj)
+      obtain ⟨st', h1, h2, h3, h4⟩ := ih st1 (i + 1) (D ++ [t]) P hI1 (by rw [htris, htr]; simp) (by simp [hD])
+        (fun x hx => hr x (by simp [hx]))
+        (by
+          intro x hx
+          have : x ∈ D ++ P ∨ x = t := by
+            simp only [List.mem_append, List.mem_singleton] at hx ⊢; tauto
+          rcases this with hx | rfl
+          · exact (hposDP x hx).2
+          · exact ⟨ht1, onesided_pres _ _ _ x (inrange_mono _ _ x htr0 hI.size_le) (fun j hj => (hpres j hj).2) hone⟩)
+      refine ⟨st', h1, h2, h3, ?_⟩
+      intro g hg
+      rw [h4 g hg]
+      have := hsumDP g
+      simp only [List.map_append, List.sum_append, List.map_cons, List.sum_cons, List.map_nil, List.sum_nil] at this ⊢
+      rw [hpt]; linarith
+    · -- the triangle is cut
+      obtain ⟨st', h1, h2, h3, h4⟩ := ih st1 (i + 1) (D ++ [p0]) (P ++ ps) hI1
+        (by rw [htris, htr, ← hD]; simp [set_at_length])
+        (by simp [hD]) (fun x hx => hr x (by simp [hx]))
+        (by
+          intro x hx
+          have : x ∈ D ++ P ∨ x ∈ p0 :: ps := by
+            simp only [List.mem_append, List.mem_singleton, List.mem_cons] at hx ⊢; tauto
+          rcases this with hx | hx
+          · exact (hposDP x hx).2
+          · exact hps x hx)
+      refine ⟨st', h1, h2, h3, ?_⟩
+      intro g hg
+      rw [h4 g hg]
+      have := hsumDP g
+      have h5 := hsum g hg
+      simp only [List.map_append, List.sum_append, List.map_cons, List.sum_cons, List.map_nil, List.sum_nil] at this h5 ⊢
+      linarith
+
+/-- invariant of the vertex partition loop after the vertices `L` (with their colours) have been visited -/
+structure RInv {K : Type} [Num K] (h : Halves K) (L : List (V3 K × Nat)) : Prop where
+  size : h.remap.size = L.length
+  left : ∀ k p c, L[k]? = some (p, c) → c ≠ 2 →
+    (h.remap.getD k (0, 0)).1 < h.vl.size ∧ h.vl.getD (h.remap.getD k (0, 0)).1 V3.zero = p
+  right : ∀ k p c, L[k]? = some (p, c) → c ≠ 1 →
+    (h.remap.getD k (0, 0)).2 < h.vr.size ∧ h.vr.getD (h.remap.getD k (0, 0)).2 V3.zero = p
+  memL : ∀ q ∈ h.vl.toList, ∃ c, (q, c) ∈ L ∧ c ≠ 2
+  memR : ∀ q ∈ h.vr.toList, ∃ c, (q, c) ∈ L ∧ c ≠ 1
+
+theorem remapStep_spec {K : Type} [Num K] (h : Halves K) (L : List (V3 K × Nat)) (p : V3 K) (c : Nat) (hc : c < 3)
+    (hI : RInv h L) : ∃ h', remapStep h p c = some h' ∧ RInv h' (L ++ [(p, c)]) := by
+  have hs := hI.size
+  have key : ∀ (h' : Halves K), h'.remap.size = L.length + 1 →
+      (∀ k, k < L.length → h'.remap.getD k (0, 0) = h.remap.getD k (0, 0)) →
+      (∀ j, j < h.vl.size → h'.vl.getD j V3.zero = h.vl.getD j V3.zero) → h.vl.size ≤ h'.vl.size →
+      (∀ j, j < h.vr.size → h'.vr.getD j V3.zero = h.vr.getD j V3.zero) → h.vr.size ≤ h'.vr.size →
+      (c ≠ 2 → (h'.remap.getD L.length (0, 0)).1 < h'.vl.size ∧ h'.vl.getD (h'.remap.getD L.length (0, 0)).1 V3.zero = p) →
+      (c ≠ 1 → (h'.remap.getD L.length (0, 0)).2 < h'.vr.size ∧ h'.vr.getD (h'.remap.getD L.length (0, 0)).2 V3.zero = p) →
+      (∀ q ∈ h'.vl.toList, q ∈ h.vl.toList ∨ (q = p ∧ c ≠ 2)) → (∀ q ∈ h'.vr.toList, q ∈ h.vr.toList ∨ (q = p ∧ c ≠ 1)) →
+      RInv h' (L ++ [(p, c)]) := by
+    intro h' a1 a2 a3 a4 a5 a6 a7 a8 a9 a10
+    refine ⟨by simp [a1], ?_, ?_, ?_, ?_⟩
+    · intro k p' c' hk hc'
+      by_cases hkl : k < L.length
+      · rw [List.getElem?_append_left hkl] at hk
+        obtain ⟨b1, b2⟩ := hI.left k p' c' hk hc'
+        rw [a2 k hkl]; exact ⟨by omega, by rw [a3 _ b1]; exact b2⟩
+      · have hk' : k = L.length := by
+          have := (List.getElem?_eq_some_iff.mp hk).1; simp at this; omega
+        subst hk'
+        simp at hk
+        obtain ⟨rfl, rfl⟩ := hk
+        exact a7 hc'
+    · intro k p' c' hk hc'
+      by_cases hkl : k < L.length
+      · rw [List.getElem?_append_left hkl] at hk
+        obtain ⟨b1, b2⟩ := hI.right k p' c' hk hc'
+        rw [a2 k hkl]; exact ⟨by omega, by rw [a5 _ b1]; exact b2⟩
+      · have hk' : k = L.length := by
+          have := (List.getElem?_eq_some_iff.mp hk).1; simp at this; omega
+        subst hk'
+        simp at hk
+        obtain ⟨rfl, rfl⟩ := hk
+        exact a8 hc'
+    · intro q hq
+      rcases a9 q hq with hq | ⟨rfl, hc'⟩
+      · obtain ⟨c', b1, b2⟩ := hI.memL q hq; exact ⟨c', by simp [b1], b2⟩
+      · exact ⟨c, by simp, hc'⟩
+    · intro q hq
+      rcases a10 q hq with hq | ⟨rfl, hc'⟩
+      · obtain ⟨c', b1, b2⟩ := hI.memR q hq; exact ⟨c', by simp [b1], b2⟩
+      · exact ⟨c, by simp, hc'⟩
+  have hc3 : c = 0 ∨ c = 1 ∨ c = 2 := by omega
+  rcases hc3 with rfl | rfl | rfl
+  · refine ⟨⟨h.vl.push p, h.vr.push p, h.remap.push (h.vl.size, h.vr.size)⟩, by simp [remapStep], key _ (by simp [hs]) ?_ ?_ (by simp) ?_ (by simp) ?_ ?_ ?_ ?_⟩
+    · intro k hk; exact getD_push_lt _ _ _ _ (by omega)
+    · intro j hj; exact getD_push_lt _ _ _ _ hj
+    · intro j hj; exact getD_push_lt _ _ _ _ hj
+    · intro _; rw [← hs, getD_push_eq]; exact ⟨by simp, getD_push_eq _ _ _⟩
+    · intro _; rw [← hs, getD_push_eq]; exact ⟨by simp, getD_push_eq _ _ _⟩
+    · intro q hq; simp at hq; rcases hq with hq | rfl <;> simp [*]
+    · intro q hq; simp at hq; rcases hq with hq | rfl <;> simp [*]
+  · refine ⟨⟨h.vl.push p, h.vr, h.remap.push (h.vl.size, u32Max)⟩, by simp [remapStep], key _ (by simp [hs]) ?_ ?_ (by simp) ?_ (by simp) ?_ ?_ ?_ ?_⟩
+    · intro k hk; exact getD_push_lt _ _ _ _ (by omega)
+    · intro j hj; exact getD_push_lt _ _ _ _ hj
+    · intro j hj; rfl
+    · intro _; rw [← hs, getD_push_eq]; exact ⟨by simp, getD_push_eq _ _ _⟩
+    · intro h; exact absurd rfl h
+    · intro q hq; simp at hq; rcases hq with hq | rfl <;> simp [*]
+    · intro q hq; exact Or.inl hq
+  · refine ⟨⟨h.vl, h.vr.push p, h.remap.push (u32Max, h.vr.size)⟩, by simp [remapStep], key _ (by simp [hs]) ?_ ?_ (by simp) ?_ (by simp) ?_ ?_ ?_ ?_⟩
+    · intro k hk; exact getD_push_lt _ _ _ _ (by omega)
+    · intro j hj; rfl
+    · intro j hj; exact getD_push_lt _ _ _ _ hj
+    · intro h; exact absurd rfl h
+    · intro _; rw [← hs, getD_push_eq]; exact ⟨by simp, getD_push_eq _ _ _⟩
+    · intro q hq; exact Or.inl hq
+    · intro q hq; simp at hq; rcases hq with hq | rfl <;> simp [*]
+
+theorem remapLoop_spec {K : Type} [Num K] (l : List (V3 K × Nat)) :
+    ∀ (h : Halves K) (L : List (V3 K × Nat)), RInv h L → (∀ x ∈ l, x.2 < 3) →
+      ∃ h', remapLoop h l = some h' ∧ RInv h' (L ++ l) := by
+  induction l with
+  | nil => intro h L hI _; exact ⟨h, rfl, by simpa using hI⟩
+  | cons x l ih =>
+    intro h L hI hl
+    obtain ⟨p, c⟩ := x
+    obtain ⟨h1, e1, hI1⟩ := remapStep_spec h L p c (hl (p, c) (by simp)) hI
+    obtain ⟨h2, e2, hI2⟩ := ih h1 (L ++ [(p, c)]) hI1 (fun x hx => hl x (by simp [hx]))
+    exact ⟨h2, by simp only [remapLoop, e1]; exact e2, by simpa using hI2⟩
+
+/-- what the remap table guarantees for the vertices of the cut mesh -/
+def RemapOK {K : Type} [Num K] (verts : Array (V3 K)) (colors : Array Nat) (remap : Array (Nat × Nat)) (vl vr : Array (V3 K)) : Prop :=
+  ∀ k, k < verts.size →
+    (colors.getD k 0 ≠ 2 → (remap.getD k (0, 0)).1 < vl.size ∧ vl.getD (remap.getD k (0, 0)).1 V3.zero = verts.getD k V3.zero) ∧
+    (colors.getD k 0 ≠ 1 → (remap.getD k (0, 0)).2 < vr.size ∧ vr.getD (remap.getD k (0, 0)).2 V3.zero = verts.getD k V3.zero)
+
+theorem assignTri_spec {K : Type} [Num K] (n : V3 K) (verts : Array (V3 K)) (colors : Array Nat) (remap : Array (Nat × Nat))
+    (vl vr : Array (V3 K)) (hR : RemapOK verts colors remap vl vr) (acc : List Tri × List Tri) (t : Tri)
+    (ht : InRange verts.size t) (hone : OneSided colors t) :
+    ∃ acc', assignTri n verts colors remap acc t = some acc' ∧
+      ((∃ tl, acc' = (acc.1 ++ [tl], acc.2) ∧ InRange vl.size tl ∧ pos vl tl = pos verts t) ∨
+       (∃ tr, acc' = (acc.1, acc.2 ++ [tr]) ∧ InRange vr.size tr ∧ pos vr tr = pos verts t)) := by
+  obtain ⟨t0, t1, t2⟩ := ht
+  obtain ⟨l0, r0⟩ := hR _ t0
+  obtain ⟨l1, r1⟩ := hR _ t1
+  obtain ⟨l2, r2⟩ := hR _ t2
+  simp only [OneSided] at hone
+  have left : colors.getD t.1 0 ≠ 2 → colors.getD t.2.1 0 ≠ 2 → colors.getD t.2.2 0 ≠ 2 →
+      ∃ tl, (acc.1 ++ [((remap.getD t.1 (0, 0)).1, (remap.getD t.2.1 (0, 0)).1, (remap.getD t.2.2 (0, 0)).1)], acc.2) = (acc.1 ++ [tl], acc.2) ∧
+        InRange vl.size tl ∧ pos vl tl = pos verts t := by
+    intro a0 a1 a2
+    exact ⟨_, rfl, ⟨(l0 a0).1, (l1 a1).1, (l2 a2).1⟩, by simp only [pos, (l0 a0).2, (l1 a1).2, (l2 a2).2]⟩
+  have right : colors.getD t.1 0 ≠ 1 → colors.getD t.2.1 0 ≠ 1 → colors.getD t.2.2 0 ≠ 1 →
+      ∃ tr, (acc.1, acc.2 ++ [((remap.getD t.1 (0, 0)).2, (remap.getD t.2.1 (0, 0)).2, (remap.getD t.2.2 (0, 0)).2)]) = (acc.1, acc.2 ++ [tr]) ∧
+        InRange vr.size tr ∧ pos vr tr = pos verts t := by
+    intro a0 a1 a2
+    exact ⟨_, rfl, ⟨(r0 a0).1, (r1 a1).1, (r2 a2).1⟩, by simp only [pos, (r0 a0).2, (r1 a1).2, (r2 a2).2]⟩
+  simp only [assignTri]
+  by_cases h1 : colors.getD t.1 0 = 1 ∨ colors.getD t.2.1 0 = 1 ∨ colors.getD t.2.2 0 = 1
+  · have h2 : ¬ (colors.getD t.1 0 = 2 ∨ colors.getD t.2.1 0 = 2 ∨ colors.getD t.2.2 0 = 2) := fun h => hone ⟨h1, h⟩
+    push Not at h2
+    rw [if_pos h1, if_pos h2]
+    exact ⟨_, rfl, Or.inl (left h2.1 h2.2.1 h2.2.2)⟩
+  · rw [if_neg h1]
+    push Not at h1
+    by_cases h2 : colors.getD t.1 0 = 2 ∨ colors.getD t.2.1 0 = 2 ∨ colors.getD t.2.2 0 = 2
+    · rw [if_pos h2]
+      exact ⟨_, rfl, Or.inr (right h1.1 h1.2.1 h1.2.2)⟩
+    · rw [if_neg h2]
+      push Not at h2
+      by_cases hf : facesPositive n (verts.getD t.1 V3.zero) (verts.getD t.2.1 V3.zero) (verts.getD t.2.2 V3.zero) = true
+      · rw [if_pos hf]; exact ⟨_, rfl, Or.inl (left h2.1 h2.2.1 h2.2.2)⟩
+      · rw [if_neg hf]; exact ⟨_, rfl, Or.inr (right h1.1 h1.2.1 h1.2.2)⟩
+
+theorem assignLoop_spec {K : Type} [Field K] (inst : Num K) (n : V3 K) (verts : Array (V3 K)) (colors : Array Nat) (remap : Array (Nat × Nat))
+    (vl vr : Array (V3 K)) (hR : RemapOK verts colors remap vl vr) (F : V3 K × V3 K × V3 K → K) (tris : List Tri) :
+    ∀ (acc : List Tri × List Tri), (∀ t ∈ tris, InRange verts.size t ∧ OneSided colors t) →
+      (∀ t ∈ acc.1, InRange vl.size t) → (∀ t ∈ acc.2, InRange vr.size t) →
+      ∃ acc', assignLoop n verts colors remap acc tris = some acc' ∧
+        (∀ t ∈ acc'.1, InRange vl.size t) ∧ (∀ t ∈ acc'.2, InRange vr.size t) ∧
+        (acc'.1.map fun t => F (pos vl t)).sum + (acc'.2.map fun t => F (pos vr t)).sum =
+          (acc.1.map fun t => F (pos vl t)).sum + (acc.2.map fun t => F (pos vr t)).sum + (tris.map fun t => F (pos verts t)).sum := by
+  induction tris with
+  | nil => intro acc _ h1 h2; exact ⟨acc, rfl, h1, h2, by simp⟩
+  | cons t tris ih =>
+    intro acc ht h1 h2
+    obtain ⟨acc1, e1, hc⟩ := assignTri_spec n verts colors remap vl vr hR acc t (ht t (by simp)).1 (ht t (by simp)).2
+    simp only [assignLoop, e1]
+    rcases hc with ⟨tl, rfl, b1, b2⟩ | ⟨tr, rfl, b1, b2⟩
+    · obtain ⟨acc', e2, c1, c2, c3⟩ := ih (acc.1 ++ [tl], acc.2) (fun x hx => ht x (by simp [hx]))
+        (by intro x hx; simp at hx; rcases hx with hx | rfl; exact h1 x hx; exact b1) h2
+      refine ⟨acc', e2, c1, c2, ?_⟩
+      rw [c3]
+      simp only [List.map_append, List.sum_append, List.map_cons, List.sum_cons, List.map_nil, List.sum_nil, b2]
+      ring
+    · obtain ⟨acc', e2, c1, c2, c3⟩ := ih (acc.1, acc.2 ++ [tr]) (fun x hx => ht x (by simp [hx])) h1
+        (by intro x hx; simp at hx; rcases hx with hx | rfl; exact h2 x hx; exact b1)
+      refine ⟨acc', e2, c1, c2, ?_⟩
+      rw [c3]
+      simp only [List.map_append, List.sum_append, List.map_cons, List.sum_cons, List.map_nil, List.sum_nil, b2]
+      ring
 end C17
